@@ -8,7 +8,9 @@ EXPLANATION = ('Whole-server level, both servers: application send() calls (text
                'index) are placed before the poll, while a poll is pending, after the upgrade socket opened, between probe and '
                'UPGRADE and after it, with symbolic counts (one slot takes bursts of up to 20), poll-pending / late-poll flags, the '
                'handshake outcome (completes / wrong frame / socket closes), a second session receiving interleaved sends, and the '
-               'first scheduling decisions of the kernel; the monitor looks only at what the simulated client receives.')
+               'first scheduling decisions of the kernel; single-transport sessions also with a tiny max_http_buffer_size (backlog larger than '
+               'the announced maxPayload) and, on WebSocket, with back-pressure (the client stops reading while sends are made); '
+               'the monitor looks only at what the simulated client receives.')
 STUBS = SIM_STUBS
 OUTSIDE = SIM_OUTSIDE + ['more than one send per slot except the burst slot (<= 20)', 'more than 2 sessions', 'more than 3 symbolic scheduling decisions']
 NOT_CONSTRAINED = []
